@@ -255,7 +255,19 @@ def run(ctx, rep):
         elif cls == 'chrono':
             ok = False
             for (creg, freg, reason) in REVIEWED:
-                if re.search(creg, n) and re.search(freg, p):
+                # the reviewed site is identified by what it is (a method of the Julian-Day type stepping its date by whole
+                # days), not by its name
+                in_role = re.search(freg, p) is not None
+                if not in_role:
+                    try:
+                        from .c20 import jd_ctor
+                        jd_adt = ctx.lib.bodies[jd_ctor(ctx)].locals[0].get('adt')
+                        bb = ctx.lib.bodies[p]
+                        in_role = bb.locals[0].get('adt') == jd_adt and any(
+                            (bb.locals[i].get('ref') or bb.locals[i]).get('adt') == jd_adt for i in range(1, bb.arg_count + 1))
+                    except Exception:
+                        in_role = False
+                if re.search(creg, n) and in_role:
                     ok = True
                     rep.ob('R7.8', key, True, 'reviewed: ' + reason)
             if not ok:
